@@ -15,6 +15,7 @@ var atomAlphabet = []string{"0", "1", "7", "9", "a", "b", "e", "E", "f", "x", "o
 	":", "'", "\\", "#", "?", "*", "&", "/", "=", "<", ">", "!", "|", "$", "t", "\n", " ", "é", "@"}
 
 var shortAlphabet = []string{"(", ")", "\"", "`", "%", "~", "\\", "-", "1", "a", " ", "/", "*", ":", "{", "}"}
+var shortAlphabetQuick = []string{"(", ")", "\"", "`", "%", "\\", "-", "a", " ", "/", "*", ":"}
 
 // hand-written texts around every lexer/parser mode switch
 var edgeTexts = []string{
